@@ -8,7 +8,8 @@ out = subprocess.run(["/verif/tools/seed_verify.sh", src] + checks, capture_outp
 print(out[-2500:])
 m = re.search(r"SUMMARY demo_orig_rc=(\d+) demo_patched_rc=(\d+) caught_by:(.*)", out)
 tests = re.search(r"(\d+) passed", out)
-failed = re.search(r"(\d+) failed", out)
+summary = next((ln for ln in out.splitlines() if re.search(r"\d+ passed", ln)), "")
+failed = re.search(r"(\d+) failed", summary)      # pytest's own summary line only (a demo may print the word too)
 ok = bool(m) and m.group(1) == "0" and m.group(2) != "0" and tests and not failed
 if not ok:
     print("NOT KEPT: invalid seed", m.groups() if m else None, tests.group(0) if tests else None, failed.group(0) if failed else None)
